@@ -14,11 +14,13 @@ import (
 func main() {
 	rt.Main(map[string]rt.Root{
 		"Metrics": {
+			Cmp:        func(a, b any) int { return otelstef.CmpMetrics(a.(*otelstef.Metrics), b.(*otelstef.Metrics)) },
 			NewWriter:  func(d pkg.ChunkWriter, o pkg.WriterOptions) (any, error) { return otelstef.NewMetricsWriter(d, o) },
 			NewReader:  func(s io.Reader) (any, error) { return otelstef.NewMetricsReader(s) },
 			WireSchema: func() (schema.WireSchema, error) { return otelstef.MetricsWireSchema() },
 		},
 		"Spans": {
+			Cmp:        func(a, b any) int { return otelstef.CmpSpans(a.(*otelstef.Spans), b.(*otelstef.Spans)) },
 			NewWriter:  func(d pkg.ChunkWriter, o pkg.WriterOptions) (any, error) { return otelstef.NewSpansWriter(d, o) },
 			NewReader:  func(s io.Reader) (any, error) { return otelstef.NewSpansReader(s) },
 			WireSchema: func() (schema.WireSchema, error) { return otelstef.SpansWireSchema() },
